@@ -277,7 +277,7 @@ impl Check for C04 {
             }
             events.push(Event { actor: who as u8, op, clock });
         }
-        crate::gen::session_variants(&mut r, &mut events, 3, 8);
+        crate::gen::session_variants(&mut r, &mut events, 3, 8, 6);
         Trace { check: "C04".into(), seed, host_tz: env.host_tz.clone(), salt: r.next(), mode: format!("{}{}", if faults { "faults" } else { "fault-free" }, if nest_rate > 0 { "+nested" } else { "" }), events }
     }
 
@@ -327,6 +327,18 @@ impl Check for C04 {
                         rep.count("session.language_switch");
                     }
                 }
+                Op::SessionFormat => {
+                    // the public formatter applied to the values of the last result, between two texts
+                    if !x.l.sessions.contains_key(&ev.actor) { continue; }
+                    let a = x.l.session_format(ev.actor, &ev.clock);
+                    let b = x.reps.get(&ev.actor).unwrap().session_format(ev.actor, &ClockScript::Frozen { t });
+                    rep.count("session.format_result_between_texts");
+                    rep.judged += 1;
+                    rep.mix_obs(&format!("{:?}", a));
+                    if a != b {
+                        rep.violate("O-projection", "format-result-differs".into(), ei, format!("format_result over the session's last values gave {:?} on the long-lived calculator/session but {:?} on the client's replica", a, b));
+                    }
+                }
                 Op::SessionRerun => {
                     // once more without a new text; defined for a one-line text (it is evaluated again)
                     if x.last_lines.get(&ev.actor) != Some(&1) || !x.l.sessions.contains_key(&ev.actor) { continue; }
@@ -339,6 +351,8 @@ impl Check for C04 {
                     rep.count("session.rerun_without_new_text");
                     let w = x.reps.get_mut(&ev.actor).unwrap();
                     let (o2, _) = w.session_rerun(ev.actor, &ClockScript::Frozen { t });
+                    w.last_asts.remove(&ev.actor);
+                    x.l.last_asts.remove(&ev.actor);
                     rep.judged += 1;
                     if o != o2 {
                         rep.violate("O-projection", format!("session-rerun-differs:{}", diff_kind(&o, &o2)), ei, format!("evaluating the session again without a new text gave {} on the long-lived calculator/session but {} on the client's replica", o.short(), o2.short()));
@@ -419,6 +433,8 @@ impl Check for C04 {
                         if st.session { x.judge_session(&mut rep, ei, st.actor, &st.text, r2, f2, &r.obs, t + st.dt, tag); }
                         else { x.judge_oneshot(&mut rep, ei, &st.lang, &st.text, r2, f2, &r.obs, t + st.dt, false, tag); }
                     }
+                    // the values of results obtained in nested steps are not kept for format_result
+                    for a in used.iter() { x.l.last_asts.remove(a); if let Some(w) = x.reps.get_mut(a) { w.last_asts.remove(a); } }
                 }
             }
             rep.states.insert(state_hash(&x.l, &x.bound));
@@ -502,6 +518,11 @@ impl Exec {
         let w = self.reps.get_mut(&actor).unwrap();
         w.allow_unwind = true;
         let o2 = w.session_text_linewise(actor, full, &ClockScript::Frozen { t });
+        if matches!(o, CallObs::Unwound(_)) || matches!(o2, CallObs::Unwound(_)) {
+            // an unwound step leaves no result whose values could be formatted
+            w.last_asts.remove(&actor);
+            self.l.last_asts.remove(&actor);
+        }
         rep.judged += 1;
         if *o != o2 {
             rep.violate("O-projection", format!("{}session-differs:{}", tag, diff_kind(o, &o2)), ei, format!("session text {:?} gave {} on the long-lived calculator/session{} but {} on the client's replica fed line by line", full, o.short(), describe(tag), o2.short()));
